@@ -100,7 +100,7 @@ def run_one(spec, out):
                     try:
                         r = _bdd.preimage(refs[tr], refs[st], {'x': 'xp'},
                                           qn, b, forall=fa)
-                        if den(r) != want:
+                        if den(r) != want or r != refs[want]:
                             out.fail('preimage.wrong_result',
                                      dict(base, op='preimage', trans=tr,
                                           set=st, q=q, forall=fa),
@@ -121,7 +121,7 @@ def run_one(spec, out):
                         out.fail('image.precondition_not_checked', case)
                     else:
                         want = expected_img(tr, st, n, {1: 0}, q, fa)
-                        if den(r) != want:
+                        if den(r) != want or r != refs[want]:
                             out.fail('image.wrong_result', case,
                                      dict(got=den(r), want=want))
                 except AssertionError as e:
@@ -139,6 +139,8 @@ def run_one(spec, out):
             b.collect_garbage()
     out.count(cnt, nt)
     out.label('image.rejected_outside_precondition', rej)
+    from .. import inv
+    out.guard(dict(base, step='structure'), lambda: inv.check_structure(b))
     den = Den(b, nm)
     for t, u in enumerate(refs):
         if den(u) != t:
@@ -203,6 +205,9 @@ def check_random_case(case):
         want = expected_img(tr, st, n, ren_idx, q, fa)
     got = den(r)
     require(got == want, f'{op}.wrong_result', dict(got=got, want=want))
+    from .. import inv
+    inv.check_structure(b)
+    require(r == Builder(b, nm)(want), 'result.not_canonical')
     d2 = Den(b, nm)
     require(d2(ft.node) == tr and d2(fs.node) == st, 'operand_changed')
     dep = any(tt.depends(tr, n, idx[a]) and tt.depends(tr, n, idx[p])
